@@ -626,6 +626,62 @@ end package;
         check_no_diagnostics(&project.analyse());
     }
 
+    /// Test that removing a secondary unit re-evaluates the unused declarations of its primary unit
+    #[test]
+    fn test_unused_declarations_after_secondary_unit_is_removed() {
+        let tempdir = tempfile::tempdir().unwrap();
+        let root = dunce::canonicalize(tempdir.path()).unwrap();
+
+        let path1 = root.join("file1.vhd");
+        let path2 = root.join("file2.vhd");
+        std::fs::write(
+            &path1,
+            "
+entity ent is
+  port (i : in bit);
+end entity;
+        ",
+        )
+        .unwrap();
+
+        std::fs::write(
+            &path2,
+            "
+architecture a of ent is
+  signal s : bit;
+begin
+  s <= i;
+end architecture;
+        ",
+        )
+        .unwrap();
+        let mut source2 = Source::from_latin1_file(&path2).unwrap();
+
+        let config_str = format!(
+            "
+[libraries]
+std.files = ['{}/../vhdl_libraries/std/*.vhd']
+std.is_third_party = true
+lib.files = ['file1.vhd', 'file2.vhd']
+        ",
+            env!("CARGO_MANIFEST_DIR")
+        );
+
+        let config = Config::from_str(&config_str, &root).unwrap();
+        let mut messages = Vec::new();
+        let mut project = Project::from_config(config, &mut messages);
+        project.enable_unused_declaration_detection();
+        assert_eq!(messages, vec![]);
+        check_no_diagnostics(&project.analyse());
+
+        // Without the architecture the port is no longer used
+        update(&mut project, &mut source2, "");
+        let diagnostics = project.analyse();
+        assert_eq!(diagnostics.len(), 1);
+        assert_eq!(diagnostics[0].code, ErrorCode::Unused);
+        assert_eq!(diagnostics[0].pos.source.file_name(), path1.as_path());
+    }
+
     /// Test that the configuration can be updated
     #[test]
     fn test_config_update() {
